@@ -283,6 +283,20 @@ func c02Scenario(c *Ctx, r *zsimrt.Run, L *Layout, pinned []map[string]int) (*Vi
 			return &v, ref
 		}
 	}
+	if L.Entry == "loader" && len(L.Remote) == 0 && r.Chance("preparsed-twice", 1, 4) {
+		r.ResetPolicies()
+		r.SetPolicy(zsimrt.OrdSorted)
+		if a, b, ok := RunLoadPreparsed(L, Materialise(L)); ok {
+			c.Count("preparsed-reloads", 1)
+			if clause, key := c02Compare(a, b); clause != "" {
+				sc, _ := json.Marshal(map[string]any{"layout": L, "kind": "preparsed-twice", "first": a.Kind(), "second": b.Kind(), "second_err": b.Err})
+				v := Violation{Property: "C02", Clause: "second-load-of-same-details-differs", Key: classKey("second-load-of-same-details-differs/"+clause, key), Engine: "c02", Scenario: sc,
+					Detail: fmt.Sprintf("one ConfigDetails with pre-parsed files loaded twice: first %s, second %s %s", a.Kind(), b.Kind(), truncate(b.Err, 200))}
+				c.Violate(v)
+				return &v, ref
+			}
+		}
+	}
 	nonCanon := 0
 	for _, n := range r.NonCanon {
 		nonCanon += n
